@@ -314,6 +314,41 @@ def run(ctx):
         per[name] = st
 
     CUR["ladder"] = None
+    # ---- alternatives that meet at one version (disjoint, but outside the theorem's strict separation): membership only,
+    #      the ill-formed result there is the listed finding
+    adj = dict(expressions=0, probes=0, disagreements=0)
+    for name in ("maven", "nuget"):
+        _, rcls, _, render, how = byname[name]
+        for i in range(n // 2):
+            a0, m, b0 = sorted(r.sample(range(2, len(LADDER) - 2), 3))
+            li, ri = r.choice([(True, False), (False, True), (False, False)])
+            alts = [("I", (a0, r.random() < 0.5), (m, li), []), ("I", (m, ri), (b0, r.random() < 0.5), [])]
+            if r.random() < 0.3:
+                alts[0] = ("I", None, (m, li), [])
+            if r.random() < 0.3:
+                alts[1] = ("I", (m, ri), None, [])
+            native, e = render(r, alts), enc(alts)
+            adj["expressions"] += 1
+            try:
+                rng = convert(rcls, how, native)
+            except Exception as ex:  # noqa
+                viol(f"{name}: from_native({native!r}) raised {type(ex).__name__}: {str(ex)[:100]}", inputs=dict(notation=name, native=native, expression=e))
+                continue
+            nontrivial.add((name, native))
+            want = core.run_driver(ctx, [f"nmatch {e} {p}" for p in (a0 - 1, a0, a0 + 1, m - 1, m, m + 1, b0 - 1, b0, b0 + 1)])
+            for p, w in zip((a0 - 1, a0, a0 + 1, m - 1, m, m + 1, b0 - 1, b0, b0 + 1), want):
+                evals += 1
+                adj["probes"] += 1
+                try:
+                    got = "OK true" if (rcls.version_class(V(p)) in rng) else "OK false"
+                except Exception as ex:  # noqa
+                    got = "ERR " + type(ex).__name__
+                if got != w:
+                    adj["disagreements"] += 1
+                    viol(f"{name}: {native!r} converts to {str(rng)!r}; version {V(p)}: vers says {got}, the native rule says {w}",
+                         inputs=dict(notation=name, native=native, expression=e, probe=V(p)), observed=got, expected=w)
+                    break
+    per["adjacent_alternatives"] = adj
     # ---- shorthands
     sh = dict(cases=0, probes=0, disagreements=0)
     for name, native, kind, (a, b, c) in shorthand_cases(r, 6 if ctx.tier == "quick" else 120):
